@@ -19,10 +19,14 @@ EXPLANATION = (
     "its cache by that cap; _create_and_validate_node / _create_readonly_node pass the caps in (rw, ro) order "
     "and diminish with (None, get_readonly_uri()); (6) MutableFileNode._writekey is stored non-None only under "
     "'not filecap.is_readonly()' or from fresh keys, get_writekey returns it, and the directory packs/decrypts "
-    "with self._node.get_writekey(). "
-    "Undecided: AES/SHA-256 strength, that uri.from_string(readcap) yields a read-only cap object (C16), "
+    "with self._node.get_writekey(); (7) in _encrypt_rw_uri the AES-CTR key stream (everything given to "
+    "create_encryptor) depends - through the package-local hash helpers, followed by parameter->return summaries - "
+    "on the child's write cap (or on fresh randomness) and on the writekey, so no two children of a directory "
+    "share a key stream, and the reader-visible salt hash hands its argument to nothing but a tagged hash. "
+    "Undecided: that the salt keeps its 16-byte width (a truncated salt makes key streams collide),  AES/SHA-256 strength, that uri.from_string(readcap) yields a read-only cap object (C16), "
     "CTR-mode length leak of the rw slot (ticket #925).")
-TECHNIQUE = "static analysis: CFG gate rules, def-use closures with sanitiser cuts, sibling agreement over node classes"
+TECHNIQUE = ("static analysis: CFG gate rules, def-use closures with sanitiser cuts, sibling agreement over node classes, "
+             "interprocedural parameter->return dependency summaries")
 
 DN = "dirnode:DirectoryNode"
 READONLY_CALL = re.compile(r"^(self|filecap)(\.\w+)?\.is_readonly\(\)$")
@@ -89,6 +93,102 @@ def node_of(cfg, call):
 
 def return_nodes(fn):
     return [n for n in fn.cfg().find(is_return) if n.id in fn.cfg().reachable_nodes()]
+
+FRESH_RANDOMNESS = {"urandom", "token_bytes", "randbytes"}
+
+
+class ParamFlow:
+    """May-depend analysis that follows calls of package-local plain functions
+    by parameter -> return summaries: an argument counts only when the callee's
+    return value may depend on the parameter it is bound to.  Calls that cannot
+    be resolved (methods, classes, library functions) keep every operand, so
+    the result over-approximates: a name that is absent cannot influence the
+    value."""
+
+    def __init__(self, idx):
+        self.cg = get_callgraph(idx)
+        self.memo = {}
+        self.summarised = 0
+
+    def summary(self, g):
+        """(parameters the return value of g may depend on, uses fresh randomness)"""
+        if g.qual in self.memo:
+            return self.memo[g.qual]
+        self.memo[g.qual] = (set(g.params), False)        # recursion: assume everything
+        rets = [n.ast.value for n in return_nodes(g) if n.ast.value is not None]
+        names, fresh = self.closure(g, rets)
+        self.memo[g.qual] = ({p for p in g.params if p in names}, fresh)
+        return self.memo[g.qual]
+
+    @staticmethod
+    def bind(g, call):
+        """parameter name -> argument expression, None when not statically bindable"""
+        a = g.node.args
+        if a.vararg or a.kwarg or any(isinstance(x, ast.Starred) for x in call.args) \
+                or any(k.arg is None for k in call.keywords):
+            return None
+        pos = [x.arg for x in list(a.posonlyargs) + list(a.args)]
+        if len(call.args) > len(pos):
+            return None
+        out = dict(zip(pos, call.args))
+        known = set(pos) | {x.arg for x in a.kwonlyargs}
+        for k in call.keywords:
+            if k.arg not in known or k.arg in out:
+                return None
+            out[k.arg] = k.value
+        return out
+
+    def closure(self, f, roots):
+        """(names / attribute paths the values of `roots` may depend on inside f, fresh randomness seen)"""
+        defs = def_exprs(f)
+        seen = set()
+        done = set()
+        fresh = [False]
+
+        def scan(e):
+            stack = [e]
+            while stack:
+                x = stack.pop()
+                if isinstance(x, ast.Call):
+                    if call_tail(x) in FRESH_RANDOMNESS:
+                        fresh[0] = True
+                    tg = self.cg.resolve(f, x)
+                    if len(tg) == 1 and tg[0].cls is None and tg[0].parent is None \
+                            and isinstance(tg[0].node, ast.FunctionDef):
+                        b = self.bind(tg[0], x)
+                        if b is not None:
+                            keep, fr = self.summary(tg[0])
+                            self.summarised += 1
+                            if fr:
+                                fresh[0] = True
+                            stack.extend(v for (p, v) in b.items() if p in keep)
+                            continue
+                if isinstance(x, ast.Attribute):
+                    p = attr_path(x)
+                    if p:
+                        use(p)
+                        continue
+                if isinstance(x, ast.Name):
+                    use(x.id)
+                    continue
+                if isinstance(x, (ast.FunctionDef, ast.AsyncFunctionDef, ast.ClassDef)):
+                    continue
+                stack.extend(ast.iter_child_nodes(x))
+
+        def use(name):
+            if name in seen:
+                return
+            seen.add(name)
+            root = name.split(".", 1)[0]
+            if root != name and root not in seen:
+                use(root)
+            for v in defs.get(name, []):
+                if id(v) not in done:
+                    done.add(id(v))
+                    scan(v)
+        for r in roots:
+            scan(r)
+        return seen, fresh[0]
 
 
 def run(ctx: Context):
@@ -218,7 +318,8 @@ def run(ctx: Context):
         if not rets:
             raise AnchorVanished("_encrypt_rw_uri returns nothing")
         r.site(fn, None)
-        oneway = {"encrypt_data", "mutable_rwcap_salt_hash", "hmac", "mutable_rwcap_key_hash"}
+        oneway = {"encrypt_data", "mutable_rwcap_salt_hash", "hmac", "mutable_rwcap_key_hash",
+                  "tagged_hash", "tagged_pair_hash"}
         names, calls, cuts = cut_closure(fn, rets, oneway)
         r.require(cparam not in names, fn, fn.loc(), "the plaintext write cap %s is returned outside "
                   "encrypt_data / hash" % cparam)
@@ -226,7 +327,7 @@ def run(ctx: Context):
         encs = [c for c in cuts if call_tail(c) == "encrypt_data"]
         if not encs:
             raise AnchorVanished("_encrypt_rw_uri no longer calls encrypt_data")
-        key_re = re.compile(r"^(\w+\.)*create_encryptor\((\w+\.)*mutable_rwcap_key_hash\((.+, )?%s(, .+)?\)\)$"
+        key_re = re.compile(r"^(\w+\.)*create_encryptor\((\w+\.)*mutable_rwcap_key_hash\((.+, )?%s(, .+)?\)(, .+)?\)$"
                             % re.escape(kparam))
         for c in encs:
             e0, e1 = arg(c, 0), arg(c, 1)
@@ -502,3 +603,47 @@ def run(ctx: Context):
             r.require(a1 is not None and N(d).norm(a1) == "self._node.get_writekey()", d, d.loc(c),
                       "child write caps are decrypted with a key derived from %s, not from the backing file's "
                       "writekey" % src(d, a1))
+
+    # -- 7. one key stream per child -------------------------------------------
+    with ctx.rule("C18.7", "R7", "_encrypt_rw_uri: the AES-CTR key stream (key and IV of create_encryptor) depends on "
+                  "the child's write cap or fresh randomness, and on the writekey, through the hash helpers "
+                  "(parameter->return summaries); the reader-visible salt hash is a tagged hash of its argument",
+                  expected=2) as r:
+        fn = idx.func("dirnode:_encrypt_rw_uri")
+        ps = first_positional_params(fn)
+        if len(ps) != 2:
+            raise AnchorVanished("_encrypt_rw_uri(writekey, rw_uri) signature changed")
+        kparam, cparam = ps
+        encs = calls_in_func(fn, "encrypt_data")
+        if not encs:
+            raise AnchorVanished("_encrypt_rw_uri no longer calls encrypt_data")
+        pf = ParamFlow(idx)
+        for c in encs:
+            e0 = arg(c, 0, "encryptor")
+            if e0 is None:
+                raise AnchorVanished("encrypt_data without an encryptor argument")
+            names, fresh = pf.closure(fn, [e0])
+            r.site(fn, c, "key stream depends on {%s}%s; %d helper calls summarised" % (
+                ", ".join(sorted(x for x in names if x in ps)), " + fresh randomness" if fresh else "", pf.summarised))
+            r.count(len(pf.memo))
+            r.require(cparam in names or fresh, fn, fn.loc(c),
+                      "the AES-CTR key stream of the rw slot (%s) depends neither on the child's write cap %s nor on "
+                      "fresh randomness: all children of a directory are encrypted under one key stream, so a read-cap "
+                      "holder who knows one child's write cap recovers the others" % (src(fn, e0), cparam))
+            r.require(kparam in names, fn, fn.loc(c),
+                      "the AES-CTR key stream of the rw slot (%s) does not depend on %s: it can be recomputed from "
+                      "reader-visible data" % (src(fn, e0), kparam))
+        # the salt is stored in the clear next to the ciphertext: whatever it is computed from must go through a hash
+        sh = idx.func("util.hashutil:mutable_rwcap_salt_hash")
+        r.site(sh, None)
+        sp = first_positional_params(sh)
+        srets = [n.ast.value for n in return_nodes(sh) if n.ast.value is not None]
+        if len(sp) != 1 or not srets:
+            raise AnchorVanished("mutable_rwcap_salt_hash(x) signature changed")
+        keep, _fr = pf.summary(sh)
+        r.require(sp[0] in keep, sh, sh.loc(), "the per-child salt hash ignores its argument %s: every child gets the "
+                  "same salt and therefore the same key stream" % sp[0])
+        # (.digest() of a hasher object is a cut as well: feeding a hasher and returning its digest is the same hash)
+        snames, _sc, scuts = cut_closure(sh, srets, {"tagged_hash", "tagged_pair_hash", "digest"})
+        r.require(sp[0] not in snames and bool(scuts), sh, sh.loc(),
+                  "the reader-visible salt exposes its argument %s outside a tagged hash" % sp[0])
